@@ -2662,8 +2662,13 @@ func ruleC15ReadOnlyMonotone(c *Ctx) {
 }
 
 // ruleC04BlockCountRoundsUp: the number of 512-byte blocks up to a byte position is a ceiling (round-up) division.
-func ruleC04BlockCountRoundsUp(c *Ctx) {
-	const rule = "C04.block-count-rounds-up"
+func ruleC04BlockCountRoundsUp(c *Ctx) { ruleC04BlockCountRoundsUpAs("C04.block-count-rounds-up")(c) }
+
+func ruleC04BlockCountRoundsUpAs(rule string) func(*Ctx) {
+	return func(c *Ctx) { blockCountRoundsUp(c, rule) }
+}
+
+func blockCountRoundsUp(c *Ctx, rule string) {
 	c.floor(rule, 4, "divisions of a byte position by the block size in Index and Query")
 	bs := c.constObj("pkg/config", "MagneticTapeBlockSize")
 	if bs == nil {
